@@ -476,6 +476,12 @@ fn inflight_append_case(rep: &mut Report, rng: &mut Rng, case_no: u64) {
         with.extend_from_slice(&body[..cut]);
         std::fs::write(&path, &with).unwrap();
         let got = compile_real(&rig, &anchor, &mut names);
+        // the reader itself (Rip.LogBytes.linesOf_inflight): exactly the frames of the log before the append
+        let whole_lines = before.iter().filter(|b| **b == b'\n').count();
+        match rig.log.replay() {
+            Ok(evs) if evs.len() == whole_lines => {}
+            other => rep.oracle_failure("C08|depends-on-append-in-flight|replay", &format!("EventLog::replay on a log of {whole_lines} whole lines followed by the first {cut} bytes of another frame: {}", match other { Ok(e) => format!("{} frames", e.len()), Err(e) => format!("Err({e})") }), json!({"case": case_no, "bytes_of_the_inflight_body_visible": cut})),
+        }
         std::fs::write(&path, &before).unwrap();
         rep.evaluations += 1;
         rep.traces_validated += 1;
